@@ -115,6 +115,15 @@ def divisions_sweep(run, V, maxlen, model):
         if q.divisions != tuple(b):
             run.violation("reported divisions %s != requested %s" % (q.divisions, b), {"kind": "divisions", "a": list(a), "b": list(b), "force": force})
     ans = model.batch(reqs)
+    # translation validation: every REAL plan is certified by the verified checker plan_ok (theorem plan_ok_sound)
+    creqs = ["(plan_ok %s %s %s %s)" % (sx(list(a)), sx(list(b)), sx(real[0]), sx(real[1]))
+             for (a, b, force), (kind, real) in zip(cases, reals) if kind == "plan"]
+    cans = model.batch(creqs)
+    uncert = sum(1 for x in cans if x != "true")
+    if uncert:
+        ex = [r for r, x in zip(creqs, cans) if x != "true"][:3]
+        run.broken_tie("plan_ok rejects a real RepartitionDivisions plan", {"count": uncert, "examples": ex})
+    run.section("repartition_divisions_certified", real_plans=len(creqs), certified_by_plan_ok=len(creqs) - uncert)
     bad = 0
     for (a, b, force), (kind, real), m in zip(cases, reals, ans):
         run.count(("div", a, b, force), nontrivial=(kind == "plan"))
